@@ -77,9 +77,13 @@ def run_cases(cases: list[dict[str, Any]]) -> dict[str, Any]:
         fn, specs = build(c)
         try:
             m = jax2onnx.to_onnx(fn, specs)
-            sess = U.ort_session(m)
         except Exception as ex:  # noqa: BLE001
             out["export_failed"].append({"case": c, "error": f"{type(ex).__name__}: {str(ex)[:200]}"})
+            continue
+        try:
+            sess = U.ort_session(m)
+        except Exception as ex:  # noqa: BLE001
+            out["problems"].append({"case": c, "bind": {"B": 0, "N": 0}, "what": "invalid_model", "detail": f"the exported model does not load: {str(ex)[:200]}"})
             continue
         nm = sess.get_inputs()[0].name
         for bs in rec["shapes"]:
